@@ -83,6 +83,7 @@ def shards(tier):
     out += [{"part": "dup", "i": i} for i in range(len(DUP_DOCS))]
     out += [{"part": "dag", "i": i} for i in range(len(dag_docs()))]
     out += [{"part": "history", "q": qi} for qi in range(len(HIST_QUERIES))]
+    out += [{"part": "rootref", "q": qi} for qi in range(len(ROOTREF_QUERIES))]
     sk = skeletons(7 if tier == "quick" else 8)
     out += [{"part": "skeleton", "lo": lo, "hi": min(lo + 4, len(sk)), "max": 7 if tier == "quick" else 8,
              "full": 6 if tier == "quick" else 7, "cap": 4000 if tier == "quick" else 20000}
@@ -111,6 +112,9 @@ def dag_docs():
 
 
 DAG_QUERIES = ["$..*", "$..[*]", "$..[0]", "$..k", "$.*", "$..[?@]"]
+# `$` inside a filter below / behind a descendant segment, matches three and more levels down
+ROOTREF_DOC = {"wanted": 2, "a": {"b": {"id": 2, "c": {"id": 2}}}, "l": [{"id": 1}, {"id": 2}]}
+ROOTREF_QUERIES = ["$..[?@.id == $.wanted]", "$..b[?@.id == $.wanted]", "$..*[?@ == $.wanted]", "$.a..[?@.id == $.wanted].id"]
 _SK = {}
 
 
@@ -179,7 +183,12 @@ def explore_input(query, doc, cap=CAP, flag="subclass"):
     invalid = None
     with choice.controlled(modules()) as ctl:
         def run():
-            return tuple(n.location for n in cq.find(doc))
+            try:
+                return tuple(n.location for n in cq.find(doc))
+            except choice.Divergence:
+                raise
+            except Exception as e:  # noqa: BLE001  (an exception is an outcome, and not a permitted one)
+                return (("raised", type(e).__name__),)
         capped = False
         for trace, res in ctl.explore(run, max_executions=cap):
             results.add(res)
@@ -195,10 +204,35 @@ def explore_input(query, doc, cap=CAP, flag="subclass"):
 HIST_QUERIES = ["$..b", "$..*", "$..[*]", "$.*", "$[?@..b]", "$..[?@]"]
 HIST_DOC1 = {"a": {"b": 1, "c": [3]}, "c": [2, {"b": 4}]}
 HIST_DOC2 = {"x": [1, {"b": 2}], "b": 0}
-HIST_PRE = ["find_one", "partial_1", "partial_2", "find_one_twice", "full"]
+HIST_PRE = ["find_one", "partial_1", "partial_2", "find_one_twice", "full", "interleaved"]
 
 
 def _history_run(cq, pre):
+    try:
+        return _history_run_inner(cq, pre)
+    except choice.Divergence:
+        raise
+    except Exception as e:  # noqa: BLE001
+        return (("raised", type(e).__name__),)
+
+
+def _history_run_inner(cq, pre):
+    if pre == "interleaved":
+        # two live iterators of the one compiled query, advanced in turns; the observation is what the
+        # iterator over HIST_DOC2 yields
+        a, b = iter(cq.finditer(HIST_DOC1)), iter(cq.finditer(HIST_DOC2))
+        out = []
+        live_a = live_b = True
+        while live_a or live_b:
+            if live_a:
+                live_a = next(a, None) is not None
+            if live_b:
+                n = next(b, None)
+                if n is None:
+                    live_b = False
+                else:
+                    out.append(n.location)
+        return tuple(out)
     if pre.startswith("find_one"):
         for _ in range(2 if pre.endswith("twice") else 1):
             cq.find_one(HIST_DOC1)
@@ -209,7 +243,12 @@ def _history_run(cq, pre):
         del it
     else:
         cq.find(HIST_DOC1)
-    return tuple(n.location for n in cq.find(HIST_DOC2))
+    try:
+        return tuple(n.location for n in cq.find(HIST_DOC2))
+    except choice.Divergence:
+        raise
+    except Exception as e:  # noqa: BLE001
+        return (("raised", type(e).__name__),)
 
 
 def check_history(query, pre, sh=None, answers=None):
@@ -257,7 +296,12 @@ def replay_choices(query, doc, answers, flag="subclass"):
     cq = compiled(query, flag)
     with choice.controlled(modules()) as ctl:
         ctl.chooser.start(answers)
-        return tuple(n.location for n in cq.find(doc))
+        try:
+            return tuple(n.location for n in cq.find(doc))
+        except choice.Divergence:
+            raise
+        except Exception as e:  # noqa: BLE001
+            return (("raised", type(e).__name__),)
 
 
 def check_input(query, doc, sh=None, cap=CAP, flag="subclass"):
@@ -343,6 +387,11 @@ def run_shard(desc):
             for v in check_input(q, doc, sh):
                 sh.violation(v)
         sh.sample({"query": WIDE_QUERIES[0], "doc": impl.jsonable(doc)}, limit=1)
+    elif desc["part"] == "rootref":
+        q = ROOTREF_QUERIES[desc["q"]]
+        for v in check_input(q, ROOTREF_DOC, sh, cap=100000):
+            sh.violation(v)
+        sh.sample({"query": q, "doc": impl.jsonable(ROOTREF_DOC)}, limit=1)
     elif desc["part"] == "history":
         q = HIST_QUERIES[desc["q"]]
         for pre in HIST_PRE:
